@@ -4,6 +4,7 @@ import json, os, sys
 ROOT = os.path.dirname(os.path.dirname(os.path.abspath(__file__)))
 sys.path.insert(0, os.path.join(ROOT, "lib"))
 import registry, manifest_meta as mm
+mm.META = registry.META
 
 props = [json.loads(l) for l in open(os.path.join(ROOT, "properties.jsonl"))]
 checks = []
@@ -43,4 +44,5 @@ man = {
     "not_applicable": na,
 }
 json.dump(man, open(os.path.join(ROOT, "MANIFEST.json"), "w"), indent=1)
+json.dump(registry.KNOWN, open(os.path.join(ROOT, "known_findings.json"), "w"), indent=1)
 print("checks:", len(checks), "not claimed:", len(na))
